@@ -138,7 +138,7 @@ class Model:
                 self.eff(ci, member_key(f))
             self.def_error[ci] = None
         except DefError as e:
-            self.def_error[ci] = e
+            self.def_error[ci] = "dep" if getattr(e, "unspecified", False) else e
 
     def eff(self, ci, key):
         """Effective contracts of member ``key`` as seen on class ``ci``:
@@ -175,12 +175,15 @@ class Model:
         if bases_have and not base_pre and own_pre:
             raise DefError("TypeError", "preconditions added to a method whose ancestors declare none")
         snaps = base_snaps + own_snaps
-        seen = set()
+        seen = {}
         for s in snaps:
             n = snap_name(s)
             if n in seen:
-                raise DefError("ValueError", "duplicate snapshot name %r in hierarchy" % n)
-            seen.add(n)
+                e = DefError("ValueError", "duplicate snapshot name %r in hierarchy" % n)
+                # the very same snapshot reached along two paths of a diamond: neither demanded nor forbidden
+                e.unspecified = seen[n] == s["sid"]
+                raise e
+            seen[n] = s["sid"]
         res = {"pre": base_pre + ([own_pre] if own_pre else []), "post": base_post + own_post, "snaps": snaps,
                "func": f, "owner": ci}
         self.eff_cache[ck] = res
@@ -497,15 +500,29 @@ class Ref:
         new_eff = m.eff(ci, ("__new__", "f"))
         init_eff = m.eff(ci, ("__init__", "f"))
 
+        def run_new_of(eff, an_op):
+            f = eff["func"]
+            owner = eff["owner"]
+            env = self.call_env(f, an_op, {"cls": "cls"})
+            benv = {p: env[p] for p in f.get("params", []) if p in env}
+            benv["cls"] = "cls"
+            qual = self.qual(owner, f)
+
+            def body():
+                self.body(qual, f, benv)
+                # rendered as: V.body(...); return super().__new__(cls)
+                mro = m.mro[ci]
+                for c in mro[mro.index(owner) + 1:]:
+                    if ("__new__", "f") in m.members(c):
+                        run_new_of(m.eff(c, ("__new__", "f")), {"args": {}})
+                        break
+                return "inst"
+
+            self.checked_call(eff, ("m", owner, ("__new__", "f")), qual, env, body)
+
         def run_new():
             if new_eff is not None:
-                f = new_eff["func"]
-                env = self.call_env(f, op, {"cls": "cls"})
-                benv = {p: env[p] for p in f.get("params", []) if p in env}
-                benv["cls"] = "cls"
-                qual = self.qual(new_eff["owner"], f)
-                self.checked_call(new_eff, ("m", new_eff["owner"], ("__new__", "f")), qual, env,
-                                  lambda: self.body(qual, f, benv))
+                run_new_of(new_eff, op)
 
         invs = m.invariants(ci)
         if init_eff is None:
